@@ -473,3 +473,51 @@ def matchModel {C : Type} (N : NumEnv C) (crc : Text → Nat) (wordOf : Nat → 
       | some t => .ok { ms := out, totalInputLines := t.line }
 
 end LC.V2Match
+
+namespace LC.V2Match
+
+/-- laws of float64 comparison the order theorems need (no NaN among confidences) -/
+structure NumLaws {C : Type} (N : NumEnv C) : Prop where
+  gt_irrefl : ∀ a, N.gt a a = false
+  gt_trans : ∀ a b c, N.gt a b = true → N.gt b c = true → N.gt a c = true
+  gt_tri : ∀ a b, N.gt a b = false → N.gt b a = false → a = b
+
+/-- a comparator that orders any two distinct elements -/
+structure StrictTotal {α : Type} (less : α → α → Bool) : Prop where
+  irrefl : ∀ a, less a a = false
+  trans : ∀ a b c, less a b = true → less b c = true → less a c = true
+  tri : ∀ a b, less a b = false → less b a = false → a = b
+
+/-- `dictionary`: words interned in insertion order; the id of a word is its position + 1,
+0 is the unknown id. -/
+structure Dict where
+  words : List (List Nat) := []
+
+def Dict.getIndex (d : Dict) (w : List Nat) : Nat :=
+  match d.words.idxOf? w with
+  | some i => i + 1
+  | none => 0
+
+def Dict.getWord (d : Dict) (i : Nat) : Option (List Nat) :=
+  if i = 0 then none else d.words[i - 1]?
+
+def Dict.add (d : Dict) (w : List Nat) : Dict × Nat :=
+  if d.getIndex w ≠ 0 then (d, d.getIndex w) else ({ words := d.words ++ [w] }, d.words.length + 1)
+
+def Dict.addAll (d : Dict) (ws : List (List Nat)) : Dict := ws.foldl (fun d w => (d.add w).1) d
+
+/-- a prepared document's lookup table only names q-grams that exist in the document -/
+def PDoc.WF (p : PDoc) : Prop :=
+  ∀ cs, ∀ o ∈ p.lookup cs, o + p.qs ≤ p.doc.ids.length
+
+/-- well-formedness of a reported match (C03) -/
+def WFMatch {C : Type} (N : NumEnv C) (docs : List PDoc) (target : Array IdTok) (crs : List Nat)
+    (m : Match C) : Prop :=
+  (m.matchType = "Copyright" ∧ m.name = "Copyright" ∧ m.conf = N.confOne ∧
+      m.startLine = m.endLine ∧ m.startLine ∈ crs) ∨
+  (N.geThr m.conf = true ∧ 0 ≤ m.startTok ∧ m.startTok ≤ m.endTok ∧ m.endTok < (target.size : Int) ∧
+      (target[m.startTok.toNat]?).map (·.line) = some m.startLine ∧
+      (target[m.endTok.toNat]?).map (·.line) = some m.endLine ∧
+      ∃ p ∈ docs, p.doc.cat = m.matchType ∧ p.doc.name = m.name ∧ p.doc.variant = m.variant)
+
+end LC.V2Match
